@@ -74,10 +74,12 @@ class Chan(Engine):
                     z = rng.choice([0, 0, 1, 2, 5, n])
                     b = '00' * min(z, n) + b[2 * min(z, n):]
                     steps.append({'op': 'raw', 'bytes': b})
-                elif r < 0.9:
+                elif r < 0.83:
                     n = rng.randint(0, 60)
                     s = '1' * rng.choice([0, 0, 1, 2, 7]) + ''.join(rng.choice(A58) for _ in range(n))
                     steps.append({'op': 'str', 'text': s, 'bad': rng.choice(NON58), 'pos': rng.randrange(1 << 16)})
+                elif r < 0.9:
+                    steps.append({'op': 'structured', 'seed': [rng.randrange(1 << 30) for _ in range(12)]})
                 else:
                     steps.append({'op': 'short', 'version': rng.randrange(256), 'bytes': gen.rhex(rng, 8)})
         else:
@@ -294,6 +296,41 @@ class Chan(Engine):
             ctx.check(False, 'C10.errclass', 'non-alphabet character %r raised %s instead of the invalid-base58 error' % (a['bad'], type(e).__name__))
         ctx.fault('text.non-alphabet-character')
         ctx.log(0, 0, 'str', '', 'n%d' % len(s).bit_length())
+
+    def _op_structured(self, a):
+        """Strings and integers with structure that uniformly random data never has: interior runs of
+        the zero digit '1' (aligned at every offset), runs of 'z', multiples and neighbours of powers of
+        58 and of 256, interior runs of zero / 0xff bytes."""
+        ctx = self.ctx
+        sd = a['seed']
+        cnt = 0
+        for j in range(len(sd) // 3):
+            x, y, z = sd[3 * j], sd[3 * j + 1], sd[3 * j + 2]
+            head = ''.join(A58[(x >> (6 * i)) % 58] for i in range(1 + x % 4)).lstrip('1') or '2'
+            tail = ''.join(A58[(y >> (6 * i)) % 58] for i in range(y % 14))
+            for run in (1, 2, 5, 9, 10, 11, 19, 20, 21, 30, 1 + z % 40):
+                for fill in ('1', 'z'):
+                    self._str_pair(head + fill * run + tail)
+                    self._str_pair('1' * (z % 3) + head + fill * run + tail)
+                    cnt += 2
+            k = 1 + z % 40
+            for base in (58, 256):
+                for d in (-1, 0, 1, x % 1000):
+                    for mult in (1, 2 + y % 55, base - 1):
+                        n = mult * base ** k + d
+                        if n >= 0:
+                            self._raw_pair(n.to_bytes((n.bit_length() + 7) // 8, 'big'))
+                            self._raw_pair(b'\x00' * (y % 3) + n.to_bytes((n.bit_length() + 7) // 8, 'big'))
+                            cnt += 2
+            hb = bytes([(x >> 3) % 255 + 1])
+            tb = (y % (1 << 64)).to_bytes(8, 'big')[:y % 9]
+            for run in (1, 3, 7, 8, 9, 16, 31, z % 50):
+                for fill in (b'\x00', b'\xff'):
+                    self._raw_pair(hb + fill * run + tb)
+                    cnt += 1
+        ctx.carry(cnt)
+        ctx.fault('structured-input', cnt)
+        ctx.log(0, 0, 'structured', '', 'ok')
 
     def _op_raw_range(self, a):
         n = a['nbytes']
@@ -532,8 +569,8 @@ class Chan(Engine):
                 ctx.check(got is None, 'C11.len', 'decoder accepts (version %d, %d-byte program), which BIP173 forbids' % (ver, n), ver=ver, plen=n)
         ctx.log(0, 0, 'codec_lengths', [hrp, ver], 'ok')
 
-    def _craft(self, hrp, data5):
-        return hrp + '1' + ''.join(CS[d] for d in list(data5) + RB32.checksum(hrp, data5))
+    def _craft(self, hrp, data5, const=1):
+        return hrp + '1' + ''.join(CS[d] for d in list(data5) + RB32.checksum(hrp, data5, const))
 
     def _op_crafted(self, a):
         """Strings a hostile encoder could produce: checksum valid, one rule of BIP173 broken."""
@@ -562,6 +599,10 @@ class Chan(Engine):
                 for rendering in (text, text.upper()):
                     self._b32_judge(hrp, rendering, 'crafted with a valid checksum (%s, version %d, %d-byte program)' % (name, ver, n), (ver, prog), False,
                                     fault='crafted', rule=name)
+            # the right structure under another final checksum constant (BIP350's Bech32m constant, 0, all ones)
+            for const in (RB32.BECH32M_CONST, 0, 0x3fffffff, 2):
+                self._b32_judge(hrp, self._craft(hrp, [ver] + d5, const), 'crafted with checksum constant 0x%x (version %d, %d-byte program)' % (const, ver, n),
+                                (ver, prog), False, fault='crafted', rule='other-constant')
             # wrong prefix / prefix of another chain with a checksum valid for that prefix
             for other in ('bc', 'tb', 'bcrt', hrp + 'x', hrp[:-1] or 'b'):
                 if other != hrp:
